@@ -370,6 +370,7 @@ type FuncReport struct {
 	NoDecreases []string
 	Returns     int
 	Skipped     string
+	Dependency  bool // verified because a function of the property relies on its contract
 }
 
 func (ex *Exec) verifyFunction(fn *ssa.Function) (rep *FuncReport) {
